@@ -48,6 +48,16 @@ class Check:
         self.notes: dict = {}
         self.trusted: list[str] = []
         self.quiet = False
+        self.errors: list[str] = []
+
+    def run_rule(self, fn, *args) -> None:
+        """Run one rule; an AnalysisError in it does not hide the verdicts of the other rules."""
+        from .model import AnalysisError
+
+        try:
+            fn(*args, self)
+        except AnalysisError as err:
+            self.errors.append(f"{getattr(fn, '__name__', 'rule')}: {err}")
 
     # ---- recording
 
@@ -99,6 +109,8 @@ class Check:
         return [e for e in data.get("findings", []) if e.get("property") == self.prop]
 
     def finish(self, error: str | None = None) -> int:
+        if error is None and self.errors:
+            error = "; ".join(self.errors)
         known = self.known()
         open_known = {(e["rule"], e["key"]): e for e in known if e.get("status") == "open"}
         lines = []
@@ -179,11 +191,13 @@ class Check:
                 print(f"  rule {rn}: instances={r['instances']} obligations={r['obligations']} discharged={r['discharged']} refuted={r['refuted']}")
             for ln in lines:
                 print(ln)
+        if violations:
+            if error:
+                print(f"  (also: ANALYSIS-ERROR in another rule: {error[:300]})")
+            return 1
         if error:
             print(f"ANALYSIS-ERROR property={self.prop}: {error}")
             return 2
-        if violations:
-            return 1
         if not self.quiet:
             print(f"OK property={self.prop}: {discharged}/{obligations} obligations discharged" + (f", {len(seen_known)} known finding(s)" if seen_known else ""))
         return 0
